@@ -272,13 +272,13 @@ func twoFragHooks(c *Ctx, seen map[*ssa.BasicBlock]bool) *bounds.Hooks {
 			seen[fl.head] = true
 			mu.Unlock()
 			if r0 == nil || m == nil || r0.Bad() || m.Bad() {
-				h.ObligeAt(fl.cond, "fragment loop entered only when the unit exceeds one fragment (>= 2 fragments)", false, "remaining amount or fragment cap not tracked on the entry edge")
+				h.ObligeEntry("fragment loop entered only when the unit exceeds one fragment (>= 2 fragments)", false, "remaining amount or fragment cap not tracked on the entry edge")
 				continue
 			}
 			ge := lin.GE(r0, m)
 			gt := lin.GE(r0, m.Add(lin.Const(1)))
-			h.ObligeAt(fl.cond, "fragment loop never entered with less than one full fragment (remaining >= cap)", d.Entails(ge), d.Describe(ge))
-			h.ObligeAt(fl.cond, "fragment loop entered only when the unit exceeds one fragment (>= 2 fragments)", d.Entails(gt), d.Describe(gt))
+			h.ObligeEntry("fragment loop never entered with less than one full fragment (remaining >= cap)", d.Entails(ge), d.Describe(ge))
+			h.ObligeEntry("fragment loop entered only when the unit exceeds one fragment (>= 2 fragments)", d.Entails(gt), d.Describe(gt))
 		}
 	}}
 }
